@@ -21,6 +21,8 @@ pub enum Op {
     Fetch,
     /// `peek_time()` at an arbitrary point: must report the smallest pending timestamp and change nothing
     Peek,
+    /// marks the history: at the end the queue goes out of scope while the thread unwinds from a panic
+    DropUnwinding,
 }
 
 impl Op {
@@ -31,6 +33,7 @@ impl Op {
             Op::Cancel { tag } => json!({"cancel": tag}),
             Op::Fetch => json!("fetch"),
             Op::Peek => json!("peek"),
+            Op::DropUnwinding => json!("drop_unwinding"),
         }
     }
 
@@ -40,6 +43,9 @@ impl Op {
         }
         if v.as_str() == Some("peek") {
             return Some(Op::Peek);
+        }
+        if v.as_str() == Some("drop_unwinding") {
+            return Some(Op::DropUnwinding);
         }
         let o = v.as_object()?;
         if let Some(t) = o.get("add") {
@@ -235,6 +241,7 @@ pub struct Stats {
     pub reuses: u64,
     pub max_pages: usize,
     pub dropped_pending: u64,
+    pub dropped_unwinding: u64,
     pub peeks: u64,
 }
 
@@ -259,6 +266,8 @@ pub struct Runner<P: Payload> {
     pub ops: Vec<Op>,
     pub stats: Stats,
     pub state_hashes: Vec<u64>,
+    /// the final drop of the queue happens during unwinding (see `Op::DropUnwinding`)
+    pub drop_unwinding: bool,
     pub collect_states: bool,
     since_walk: usize,
     anon_expected: u64,
@@ -317,9 +326,11 @@ impl<P: Payload> Runner<P> {
                 reuses: 0,
                 max_pages: 0,
                 dropped_pending: 0,
+                dropped_unwinding: 0,
                 peeks: 0,
             },
             state_hashes: Vec::new(),
+            drop_unwinding: false,
             collect_states: false,
             since_walk: 0,
             anon_expected: 0,
@@ -515,6 +526,11 @@ impl<P: Payload> Runner<P> {
             Op::Cancel { tag } => self.cancel(tag),
             Op::Fetch => self.fetch(),
             Op::Peek => self.peek(),
+            Op::DropUnwinding => {
+                self.drop_unwinding = true;
+                self.ops.push(Op::DropUnwinding);
+                Ok(())
+            }
         }
     }
 
@@ -872,7 +888,22 @@ impl<P: Payload> Runner<P> {
         self.handles.clear();
         let q = self.q.take().unwrap();
         verif::list_reset(Some(self.pending as u64 + 8));
-        let res = vcommon::catch(move || drop(q));
+        self.stats.dropped_unwinding = u64::from(self.drop_unwinding);
+        let res = if self.drop_unwinding {
+            // the queue is a local of a frame that is left by a panic
+            struct Marker;
+            let r = std::panic::catch_unwind(std::panic::AssertUnwindSafe(move || {
+                let _q = q;
+                std::panic::panic_any(Marker);
+            }));
+            match r {
+                Err(p) if p.is::<Marker>() => Ok(()),
+                Err(p) => Err(vcommon::panic_message(&p)),
+                Ok(()) => Ok(()),
+            }
+        } else {
+            vcommon::catch(move || drop(q))
+        };
         verif::list_reset(None);
         if let Err(msg) = res {
             return Err(self.fail("C15", "drop-panicked", format!("dropping the queue panicked: {msg}")));
@@ -939,6 +970,7 @@ impl<P: Payload> Runner<P> {
                 reuses: 0,
                 max_pages: 0,
                 dropped_pending: 0,
+                dropped_unwinding: 0,
                 peeks: 0,
             },
         );
